@@ -298,6 +298,15 @@ class CSSImportRule(cssrule.CSSRule):
 
             # all possible exceptions are ignored
             try:
+                # a sheet importing one of the sheets it is imported from
+                # would never stop loading
+                ancestor = self.parentStyleSheet
+                while ancestor is not None:
+                    if ancestor.href == fullhref:
+                        raise OSError('Circular @import.')
+                    ownerRule = ancestor.ownerRule
+                    ancestor = ownerRule.parentStyleSheet if ownerRule else None
+
                 usedEncoding, enctype, cssText = self.parentStyleSheet._resolveImport(
                     fullhref
                 )
